@@ -54,6 +54,11 @@ class Kit:
             pos = base + 0.05 * t * self.rng.standard_normal((N, d))
             if not tag.startswith("xu"):
                 pos = lo + np.mod(pos - lo, L)
+            elif tag.endswith("far"):
+                # unwrapped coordinates well outside the primary cell (whole box lengths away): valid input wherever the minimum image is taken
+                pos = pos.copy()
+                pos[::5] += L * np.array([[2, -1, 1][:d]])
+                pos[1::7] -= L
             bounds = np.array([[lo, lo + L]] * d)
             frames.append(ru.SingleSnapshot(timestep=1000 * t, nparticle=N, particle_type=types.copy(), positions=np.ascontiguousarray(pos),
                                             boxlength=np.array([L] * d), boxbounds=bounds, realbounds=bounds.copy(), hmatrix=np.diag([L] * d).astype(float)))
@@ -366,6 +371,14 @@ def _specs():
         f = K.path("gb")
         return _S(lambda: K.mod("utils.coarse_graining").gaussian_blurring(sn, A, ng, 1.0, p, 6.0, f), (sn, A, ng, p),
                   [(f + "_positions.npy", "npy", lambda r: r[0], None), (f + "_properties.npy", "npy", lambda r: r[1], None)])
+
+    @add("utils.coarse_graining.gaussian_blurring", "2d-unwrapped-outside-the-cell")
+    def _(K):
+        np = K.np
+        sn = K.snaps(2, tag="xu-far")
+        A = K.rng.random((sn.nsnapshots, sn.snapshots[0].nparticle))
+        ng, p = np.array([3, 4]), K.ppp(2)
+        return _S(lambda: K.mod("utils.coarse_graining").gaussian_blurring(sn, A, ng, 1.0, p, 6.0, ""), (sn, A, ng, p))
 
     # ---- neighbours
     for d in (3, 2):
